@@ -4,6 +4,7 @@ package main
 
 import (
 	"fmt"
+	"sync"
 	"go/token"
 	"go/types"
 	"sort"
@@ -133,6 +134,11 @@ type Enc struct {
 	wfSeen   map[string]bool
 	refComp  map[string]bool
 	assertHit map[string]int
+	symCache map[int][]string
+	symMu    sync.Mutex
+	globalLoads map[string]string
+	guardedVals map[ssa.Value][2]string
+	noLocks bool
 	lookupIdx int // >= 0: lookupLocal also scans the first lookupIdx instructions of the block itself
 	cells    []ssa.Value // own variable cells (escaping allocs / captured variables) reachable by callees only as arguments
 	sliceComp map[string]bool
@@ -191,6 +197,8 @@ func (e *Enc) reset() {
 	e.retCount = map[string]int{}
 	e.lookupIdx = -1
 	e.assertHit = map[string]int{}
+	e.globalLoads = map[string]string{}
+	e.guardedVals = map[ssa.Value][2]string{}
 	e.inferredUsed = map[string]bool{}
 	e.wfSeen = nil
 }
@@ -645,8 +653,17 @@ func (e *Enc) val(v ssa.Value) TV {
 	case *ssa.Builtin:
 		return TV{"0", sInt, x.Type()}
 	}
-	if _, ok := e.places[v]; ok {
-		// interior pointer used as a value
+	if pl, ok := e.places[v]; ok {
+		// interior pointer used as a value: the address of a field of a heap object is a function of (object, field)
+		if pl.Kind == pHeap && len(pl.Path) == 1 && !pl.Path[0].isIdx {
+			c := e.fresh("faddr", sInt)
+			e.assert(eq(c, fmt.Sprintf("(fieldaddr %s %d)", pl.Ref, pl.Path[0].field)))
+			e.assert(fmt.Sprintf("(and (= (fa_ref %s) %s) (= (fa_idx %s) %d) (> %s 0))", c, pl.Ref, c, pl.Path[0].field, c))
+			tv := TV{c, sInt, v.Type()}
+			e.vals[v] = tv
+			e.ptrNonNil[c] = true
+			return tv
+		}
 		e.flag("interior-pointer-escapes")
 		tv := TV{e.fresh("iptr", sInt), sInt, v.Type()}
 		e.vals[v] = tv
